@@ -91,6 +91,7 @@ pub open spec fn rle16_data_len(kind: RleKind, mask: Option<u8>, len: nat) -> in
     if kind is ColorImage { 2 * (len as int) } else if kind is FgBgImage && mask is None { (len as int + 7) / 8 } else { 0 }
 }
 /// the order starting at offset i (0 <= i < s.len()); None: not an order, or header / parameters truncated
+#[verifier::opaque]
 pub open spec fn rle16_parse(s: Seq<u8>, i: int) -> Option<RleOrder> {
     match rle16_header(s[i]) {
         None => None,
@@ -118,6 +119,7 @@ pub open spec fn rle16_parse(s: Seq<u8>, i: int) -> Option<RleOrder> {
     }
 }
 /// the pixel at the same column of the previously decoded scanline (black on the first decoded scanline); img = pixels decoded so far
+#[verifier::opaque]
 pub open spec fn rle16_above(img: Seq<u16>, width: nat) -> u16 { if img.len() < width { 0 } else { img[img.len() - width] } }
 pub open spec fn rle16_bit(j: int) -> u8 {
     if j == 0 { 1 } else if j == 1 { 2 } else if j == 2 { 4 } else if j == 3 { 8 } else if j == 4 { 16 } else if j == 5 { 32 } else if j == 6 { 64 } else { 128 }
@@ -165,6 +167,7 @@ pub open spec fn rle16_apply(s: Seq<u8>, width: nat, st: RleState, o: RleOrder) 
         last_bg: o.kind is BgRun,
     }
 }
+#[verifier::opaque]
 pub open spec fn rle16_run(s: Seq<u8>, width: nat, i: int, st: RleState) -> Option<Seq<u16>>
     decreases s.len() - i
 {
@@ -178,10 +181,12 @@ pub open spec fn rle16_run(s: Seq<u8>, width: nat, i: int, st: RleState) -> Opti
     }
 }
 /// the decoded pixels in DECODE order (first = leftmost pixel of the bottom row); None: malformed stream
+#[verifier::opaque]
 pub open spec fn rle16_decode(s: Seq<u8>, width: nat) -> Option<Seq<u16>> {
     rle16_run(s, width, 0, RleState { img: Seq::empty(), fg: 0xffff, last_bg: false })
 }
 /// the stream (from offset i) contains a MEGA_MEGA-form header 0xF0..=0xF8 with a ZERO 16-bit run length
+#[verifier::opaque]
 pub open spec fn rle16_zero_run(s: Seq<u8>, i: int) -> bool
     decreases s.len() - i
 {
@@ -199,6 +204,7 @@ pub proof fn lemma_rle16_parse_next(s: Seq<u8>, i: int)
     requires 0 <= i < s.len()
     ensures rle16_parse(s, i) matches Some(o) ==> i < o.data <= s.len() && o.data <= o.next
 {
+    reveal(rle16_parse);
 }
 
 // ----- bit-level facts about header bytes
@@ -211,6 +217,7 @@ pub proof fn lemma_rle16_bits(h: u8)
 }
 // ----- relation between the output buffer (rows stored top-down, decoded bottom-up) and the decoded pixel sequence, in LINEAR form
 /// n completed rows: the most recent one at out[l .. l+width) == img[b .. b+width), the one before at out[l+width ..) == img[b-width ..), ...
+#[verifier::opaque]
 pub open spec fn rle16_rows_ok(out: Seq<u16>, img: Seq<u16>, width: int, l: int, b: int, n: nat) -> bool
     decreases n
 {
@@ -237,10 +244,11 @@ pub open spec fn rle16_row_inv(out: Seq<u16>, o0: Seq<u16>, orow: Seq<u16>, img:
 pub proof fn lemma_rle16_row_facts(out: Seq<u16>, o0: Seq<u16>, orow: Seq<u16>, img: Seq<u16>, imgrow: Seq<u16>, width: int, top: int, l: int, x: int, base: int, prev: Option<usize>)
     requires rle16_row_inv(out, o0, orow, img, imgrow, width, top, l, x, base, prev)
     ensures img.len() == base + x, 0 <= x <= width, 0 <= l, l + width <= out.len(), out.len() == o0.len(),
-        prev matches Some(e) ==> e == l + width && e + width <= out.len(),
+        prev matches Some(e) ==> e == l + width && e + width <= out.len() && base >= width,
+        prev is None ==> base == 0,
         x < width ==> rle16_above(img, width as nat) == (match prev { Some(e) => out[e + x], None => 0u16 }),
 {
-    reveal(rle16_row_inv);
+    reveal(rle16_row_inv); reveal(rle16_above);
     if x < width {
         match prev {
             Some(e) => { assert(out[l + width + x] == img[base - width + x]); },
@@ -269,6 +277,7 @@ pub proof fn lemma_rle16_rows_frame(out: Seq<u16>, out2: Seq<u16>, img: Seq<u16>
     ensures rle16_rows_ok(out2, img2, width, l, b, n)
     decreases n
 {
+    reveal(rle16_rows_ok);
     if n > 0 {
         lemma_rle16_rows_frame(out, out2, img, img2, width, l + width, b - width, (n - 1) as nat);
         assert forall|c: int| 0 <= c < width implies #[trigger] out2[l + c] == img2[b + c] by {
@@ -282,7 +291,7 @@ pub proof fn lemma_rle16_first_row(o0: Seq<u16>, width: int, top: int, l: int)
     ensures rle16_row_inv(o0, o0, o0, Seq::<u16>::empty(), Seq::<u16>::empty(), width, top, l, 0, 0, None),
         rle16_rows_ok(o0, Seq::<u16>::empty(), width, l + width, -width, 0)
 {
-    reveal(rle16_row_inv);
+    reveal(rle16_row_inv); reveal(rle16_rows_ok);
 }
 /// the current row is complete and the next one (below it in the buffer) is started
 pub proof fn lemma_rle16_next_row(out: Seq<u16>, o0: Seq<u16>, orow: Seq<u16>, img: Seq<u16>, imgrow: Seq<u16>, width: int, top: int, l: int, base: int, prev: Option<usize>, n: nat)
@@ -291,7 +300,7 @@ pub proof fn lemma_rle16_next_row(out: Seq<u16>, o0: Seq<u16>, orow: Seq<u16>, i
     ensures rle16_row_inv(out, o0, out, img, img, width, top, l - width, 0, base + width, Some(l as usize)),
         rle16_rows_ok(out, img, width, l, base, n + 1)
 {
-    reveal(rle16_row_inv);
+    reveal(rle16_row_inv); reveal(rle16_rows_ok);
     lemma_rle16_rows_frame(orow, out, imgrow, img, width, l + width, base - width, n);
     assert forall|c: int| 0 <= c < width && base + width >= width implies #[trigger] out[(l - width) + width + c] == img[(base + width) - width + c] by {
         assert(out[l + c] == img[base + c]);
@@ -303,6 +312,7 @@ pub proof fn lemma_rle16_rows_at(out: Seq<u16>, img: Seq<u16>, width: int, l: in
     ensures 0 <= b - j * width + c < img.len(), 0 <= l + j * width + c < out.len(), out[l + j * width + c] == img[b - j * width + c]
     decreases j
 {
+    reveal(rle16_rows_ok);
     if j > 0 {
         lemma_rle16_rows_at(out, img, width, l + width, b - width, (n - 1) as nat, j - 1, c);
         assert((j - 1) * width == j * width - width) by(nonlinear_arith);
@@ -311,6 +321,13 @@ pub proof fn lemma_rle16_rows_at(out: Seq<u16>, img: Seq<u16>, width: int, l: in
     }
 }
 pub open spec fn rle16_idx(width: int, h0: int, r: int, c: int) -> int { (h0 - 1 - r) * width + c }
+pub proof fn lemma_rle16_idx_bound(width: int, h0: int, r: int, c: int)
+    requires 0 <= r < h0, 0 <= c < width
+    ensures 0 <= rle16_idx(width, h0, r, c) < width * h0
+{
+    assert(0 <= (h0 - 1 - r) * width) by(nonlinear_arith) requires 0 <= h0 - 1 - r, 0 <= width;
+    assert((h0 - 1 - r) * width + width <= width * h0) by(nonlinear_arith) requires h0 - 1 - r + 1 <= h0, 0 <= width;
+}
 /// the result in closed form: decoded pixel (row r, column c) is at out[(h0 - 1 - r) * width + c]
 pub proof fn lemma_rle16_final(out: Seq<u16>, o0: Seq<u16>, orow: Seq<u16>, img: Seq<u16>, imgrow: Seq<u16>, width: int, h0: int, height: int, x: int, prev: Option<usize>)
     requires 0 <= height < h0,
@@ -388,6 +405,7 @@ pub open spec fn rle16_order_inv(s: Seq<u8>, width: nat, st0: RleState, o: RleOr
     &&& (o.kind is DitheredRun ==> 2 * count - (if bicolour { 1int } else { 0int }) == npix - k && bicolour == (k % 2 == 1))
     &&& (!(o.kind is DitheredRun) ==> count == npix - k && !bicolour)
     &&& pos == rle16_pos(o, k)
+    &&& pos <= s.len()
     &&& mix == rle16_fg(st0, o)
     &&& img == rle16_write(s, width, o, mix, ins, st0.img, k as nat)
     &&& insertmix == (ins && k == 0)
@@ -401,9 +419,10 @@ pub open spec fn rle16_order_inv(s: Seq<u8>, width: nat, st0: RleState, o: RleOr
     })
 }
 pub open spec fn rle16_shl1(m: u8) -> u8 { m << 1u8 }
+/// (FGBG_IMAGE: the byte read is stated as the Cursor contract states it, cursor_rest(s, pos)[0], so that the obligation is a direct match)
 /// what one executed pixel statement of the decoder does to its variables (old -> new) and the value v it stores, per order kind;
-/// above = the pixel above the one written
-pub open spec fn rle16_code_step(s: Seq<u8>, kind: RleKind, above: u16, mix: u16, colour1: u16, colour2: u16, fom_mask: u8,
+/// bg = the value the code uses for "background" (the pixel above, 0 on the first decoded scanline), fgv = its value for "above XOR mix"
+pub open spec fn rle16_code_step(s: Seq<u8>, kind: RleKind, bg: u16, fgv: u16, colour1: u16, colour2: u16, fom_mask: u8,
     count: u32, bicolour: bool, pos: nat, insertmix: bool, mask: u8, mixmask: u8,
     count2: u32, bicolour2: bool, pos2: nat, insertmix2: bool, mask2: u8, mixmask2: u8, v: u16) -> bool
 {
@@ -414,14 +433,14 @@ pub open spec fn rle16_code_step(s: Seq<u8>, kind: RleKind, above: u16, mix: u16
     &&& (!(kind is DitheredRun) ==> count2 == count - 1 && bicolour2 == bicolour)
     &&& (!(kind is ColorImage) && !(kind is FgBgImage) ==> pos2 == pos)
     &&& match kind {
-        RleKind::BgRun => v == (if insertmix { above ^ mix } else { above }),
-        RleKind::FgRun => v == above ^ mix,
+        RleKind::BgRun => v == (if insertmix { fgv } else { bg }),
+        RleKind::FgRun => v == fgv,
         RleKind::FgBgImage => {
-            &&& mask2 == (if m1 == 0 { if fom_mask != 0 { fom_mask } else { s[pos as int] } } else { mask })
+            &&& mask2 == (if m1 == 0 { if fom_mask != 0 { fom_mask } else { cursor_rest(s, pos)[0] } } else { mask })
             &&& mixmask2 == (if m1 == 0 { 1u8 } else { m1 })
             &&& pos2 == (if m1 == 0 && fom_mask == 0 { pos + 1 } else { pos })
-            &&& (m1 == 0 && fom_mask == 0 ==> pos < s.len())
-            &&& v == (if mask2 & mixmask2 != 0 { above ^ mix } else { above })
+            &&& (m1 == 0 && fom_mask == 0 ==> cursor_rest(s, pos).len() >= 1)
+            &&& v == (if mask2 & mixmask2 != 0 { fgv } else { bg })
         },
         RleKind::ColorRun => v == colour2,
         RleKind::ColorImage => pos + 2 <= s.len() && v == u16_le(s[pos as int], s[pos as int + 1]) && pos2 == pos + 2,
@@ -430,43 +449,169 @@ pub open spec fn rle16_code_step(s: Seq<u8>, kind: RleKind, above: u16, mix: u16
         RleKind::Black => v == 0,
     }
 }
+/// the code's "background" and "above XOR mix" values at column x of the row starting at l (prev = start of the previous row, if any)
+pub open spec fn rle16_code_bg(out: Seq<u16>, prev: Option<usize>, x: int) -> u16 { match prev { Some(e) => out[e + x], None => 0u16 } }
+pub open spec fn rle16_code_fg(out: Seq<u16>, prev: Option<usize>, x: int, mix: u16) -> u16 { match prev { Some(e) => out[e + x] ^ mix, None => mix } }
 pub proof fn lemma_rle16_step(s: Seq<u8>, width: nat, st0: RleState, o: RleOrder, k: int, opcode: u8, img: Seq<u16>, mix: u16, colour1: u16, colour2: u16, fom_mask: u8,
     count: u32, bicolour: bool, pos: nat, insertmix: bool, mask: u8, mixmask: u8,
     count2: u32, bicolour2: bool, pos2: nat, insertmix2: bool, mask2: u8, mixmask2: u8, v: u16)
     requires
         rle16_order_inv(s, width, st0, o, k, opcode, count, bicolour, pos, img, mix, insertmix, colour1, colour2, fom_mask, mask, mixmask),
         count > 0,
-        rle16_code_step(s, o.kind, rle16_above(img, width), mix, colour1, colour2, fom_mask, count, bicolour, pos, insertmix, mask, mixmask,
+        rle16_code_step(s, o.kind, rle16_above(img, width), rle16_above(img, width) ^ mix, colour1, colour2, fom_mask, count, bicolour, pos, insertmix, mask, mixmask,
             count2, bicolour2, pos2, insertmix2, mask2, mixmask2, v),
     ensures
-        k < rle16_npix(o),
-        v == rle16_pixel(s, width, o, mix, rle16_insert(st0, width, o), img, k),
         rle16_order_inv(s, width, st0, o, k + 1, opcode, count2, bicolour2, pos2, img.push(v), mix, insertmix2, colour1, colour2, fom_mask, mask2, mixmask2),
 {
-    reveal(rle16_order_inv);
+    reveal(rle16_order_inv); reveal(rle16_above);
     let m = mixmask;
     assert((m == 0u8 ==> m << 1u8 == 0u8) && (m == 1u8 ==> m << 1u8 == 2u8) && (m == 2u8 ==> m << 1u8 == 4u8) && (m == 4u8 ==> m << 1u8 == 8u8)
       && (m == 8u8 ==> m << 1u8 == 16u8) && (m == 16u8 ==> m << 1u8 == 32u8) && (m == 32u8 ==> m << 1u8 == 64u8) && (m == 64u8 ==> m << 1u8 == 128u8) && (m == 128u8 ==> m << 1u8 == 0u8)) by(bit_vector);
     let ins = rle16_insert(st0, width, o);
     assert(rle16_write(s, width, o, mix, ins, st0.img, (k + 1) as nat) == img.push(rle16_pixel(s, width, o, mix, ins, img, k)));
 }
+/// ONE EXECUTED PIXEL STATEMENT (the single proof step of the 100 pixel statements of the expanded body): the decoder's variables go from the
+/// un-subscripted to the `2` values, out -> out2 = out with v stored at column x of the current row; if that is what the code of order kind `kind`
+/// does (rle16_code_step over the code's own background / foreground values), the decoded sequence grows by the specification's pixel.
+pub proof fn lemma_rle16_pixel(dz: bool, s: Seq<u8>, width: nat, st0: RleState, po: Option<RleOrder>, kind: RleKind, k: int, opcode: u8, img: Seq<u16>, mix: u16,
+    colour1: u16, colour2: u16, fom_mask: u8,
+    count: u32, bicolour: bool, pos: nat, insertmix: bool, mask: u8, mixmask: u8,
+    count2: u32, bicolour2: bool, pos2: nat, insertmix2: bool, mask2: u8, mixmask2: u8,
+    out: Seq<u16>, out2: Seq<u16>, o0: Seq<u16>, orow: Seq<u16>, imgrow: Seq<u16>, top: int, l: int, x: int, base: int, prev: Option<usize>, v: u16)
+    requires
+        dz || (po is Some && po->Some_0.kind == kind
+            && rle16_order_inv(s, width, st0, po->Some_0, k, opcode, count, bicolour, pos, img, mix, insertmix, colour1, colour2, fom_mask, mask, mixmask)
+            && rle16_row_inv(out, o0, orow, img, imgrow, width as int, top, l, x, base, prev)),
+        x < width, count > 0,
+        out2 == out.update(l + x, v),
+        dz || rle16_code_step(s, kind, rle16_code_bg(out, prev, x), rle16_code_fg(out, prev, x, mix), colour1, colour2, fom_mask, count, bicolour, pos, insertmix, mask, mixmask,
+            count2, bicolour2, pos2, insertmix2, mask2, mixmask2, v),
+    ensures
+        dz || (rle16_order_inv(s, width, st0, po->Some_0, k + 1, opcode, count2, bicolour2, pos2, img.push(v), mix, insertmix2, colour1, colour2, fom_mask, mask2, mixmask2)
+            && rle16_row_inv(out2, o0, orow, img.push(v), imgrow, width as int, top, l, x + 1, base, prev)),
+{
+    if !dz {
+        lemma_rle16_row_facts(out, o0, orow, img, imgrow, width as int, top, l, x, base, prev);
+        assert(0u16 ^ mix == mix) by(bit_vector);
+        lemma_rle16_step(s, width, st0, po->Some_0, k, opcode, img, mix, colour1, colour2, fom_mask, count, bicolour, pos, insertmix, mask, mixmask,
+            count2, bicolour2, pos2, insertmix2, mask2, mixmask2, v);
+        lemma_rle16_put(out, out2, o0, orow, img, imgrow, width as int, top, l, x, base, prev, v);
+    }
+}
+// ----- the decoder's header / parameter decoding against the order table of the specification
+pub struct RleDec { pub opcode: u8, pub count: u32, pub pos: int, pub mix: u16, pub colour1: u16, pub colour2: u16, pub fom_mask: u8, pub mask: u8 }
+/// MODEL of the code between `code = read_u8()` and `lastopcode = opcode` (three stages: opcode form, count, parameters) as a function of the
+/// input and of the variables that survive from the previous order; None = a read fails.  The body asserts that the real variables equal this
+/// model (so a transcription error here is a verification failure, not an assumption).
+pub open spec fn rle16_code_decode(s: Seq<u8>, p0: int, mix: u16, colour1: u16, colour2: u16, mask: u8) -> Option<RleDec> {
+    let code = s[p0];
+    let op4 = code >> 4;
+    let a: Option<(u8, u32, u32, int)> =
+        if op4 == 0xC || op4 == 0xD || op4 == 0xE { Some(((op4 - 6) as u8, (code & 0xf) as u32, 16u32, p0 + 1)) }
+        else if op4 == 0xF {
+            let opc = code & 0xf;
+            if opc < 9 { if p0 + 3 <= s.len() { Some((opc, u16_le(s[p0 + 1], s[p0 + 2]) as u32, 0u32, p0 + 3)) } else { None } }
+            else if opc < 0xb { Some((opc, 8u32, 0u32, p0 + 1)) }
+            else { Some((opc, 1u32, 0u32, p0 + 1)) }
+        } else { Some((op4 >> 1, (code & 0x1f) as u32, 32u32, p0 + 1)) };
+    match a {
+        None => None,
+        Some((op_a, cnt_a, offset, pos_a)) => {
+            let fill = op_a == 2 || op_a == 7;
+            let b: Option<(u32, int)> =
+                if offset != 0 {
+                    if cnt_a == 0 {
+                        if pos_a < s.len() { Some(((s[pos_a] as u32 + (if fill { 1u32 } else { offset })) as u32, pos_a + 1)) } else { None }
+                    } else if fill { Some((cnt_a << 3, pos_a)) } else { Some((cnt_a, pos_a)) }
+                } else { Some((cnt_a, pos_a)) };
+            match b {
+                None => None,
+                Some((cnt, pos_b)) => {
+                    if op_a == 8 {
+                        if pos_b + 4 <= s.len() { Some(RleDec { opcode: 8, count: cnt, pos: pos_b + 4, mix, colour1: u16_le(s[pos_b], s[pos_b + 1]), colour2: u16_le(s[pos_b + 2], s[pos_b + 3]), fom_mask: 0, mask }) } else { None }
+                    } else if op_a == 3 {
+                        if pos_b + 2 <= s.len() { Some(RleDec { opcode: 3, count: cnt, pos: pos_b + 2, mix, colour1, colour2: u16_le(s[pos_b], s[pos_b + 1]), fom_mask: 0, mask }) } else { None }
+                    } else if op_a == 6 || op_a == 7 {
+                        if pos_b + 2 <= s.len() { Some(RleDec { opcode: (op_a - 5) as u8, count: cnt, pos: pos_b + 2, mix: u16_le(s[pos_b], s[pos_b + 1]), colour1, colour2, fom_mask: 0, mask }) } else { None }
+                    } else if op_a == 9 { Some(RleDec { opcode: 2, count: cnt, pos: pos_b, mix, colour1, colour2, fom_mask: 3, mask: 3 }) }
+                    else if op_a == 0xa { Some(RleDec { opcode: 2, count: cnt, pos: pos_b, mix, colour1, colour2, fom_mask: 5, mask: 5 }) }
+                    else { Some(RleDec { opcode: op_a, count: cnt, pos: pos_b, mix, colour1, colour2, fom_mask: 0, mask }) }
+                },
+            }
+        },
+    }
+}
+/// HEADER / LENGTH DECODING LEMMA (all 256 header bytes): the decoder's opcode / count / offset extraction is the order table of the specification.
+/// Outside zero-length MEGA_MEGA orders: an order of the specification is decoded to its kind, run length, parameters and data offset; what is
+/// not an order ends up in an opcode that the pixel loop rejects, with a non-zero count.
+pub proof fn lemma_rle16_decode(s: Seq<u8>, width: nat, st0: RleState, p0: int, colour1: u16, colour2: u16, mask: u8, insertmix: bool)
+    requires 0 <= p0 < s.len(), !rle16_zero_run(s, p0),
+        rle16_code_decode(s, p0, st0.fg, colour1, colour2, mask) matches Some(d) ==> insertmix == (d.opcode == 0 && st0.last_bg && !(st0.img.len() == 0 || st0.img.len() == width)),
+    ensures rle16_code_decode(s, p0, st0.fg, colour1, colour2, mask) matches Some(d) ==> (match rle16_parse(s, p0) {
+            None => d.count > 0 && (d.opcode == 5 || d.opcode == 0xb || d.opcode == 0xc || d.opcode == 0xf),
+            Some(o) => insertmix == rle16_insert(st0, width, o) && d.pos <= s.len()
+                && rle16_order_inv(s, width, st0, o, 0, d.opcode, d.count, false, d.pos as nat, st0.img, d.mix, insertmix, d.colour1, d.colour2, d.fom_mask, d.mask, 0),
+        }),
+{
+    reveal(rle16_parse); reveal(rle16_zero_run); reveal(rle16_order_inv);
+    let code = s[p0];
+    lemma_rle16_bits(code);
+    if p0 + 2 < s.len() { lemma_rle16_le_zero(s[p0 + 1], s[p0 + 2]); }
+    let c = (code & 0x1f) as u32;
+    assert(c <= 31 ==> (c << 3u32) == c * 8) by(bit_vector);
+    let c4 = (code & 0x0f) as u32;
+    assert(c4 <= 15 ==> (c4 << 3u32) == c4 * 8) by(bit_vector);
+}
+/// the specification's fold over orders advances past order o
+pub proof fn lemma_rle16_order_end(s: Seq<u8>, width: nat, st0: RleState, o: RleOrder, p0: int, k: int, opcode: u8, count: u32, bicolour: bool, pos: nat,
+    img: Seq<u16>, mix: u16, insertmix: bool, colour1: u16, colour2: u16, fom_mask: u8, mask: u8, mixmask: u8)
+    requires 0 <= p0 < s.len(), rle16_parse(s, p0) == Some(o), count == 0, !rle16_zero_run(s, p0),
+        rle16_order_inv(s, width, st0, o, k, opcode, count, bicolour, pos, img, mix, insertmix, colour1, colour2, fom_mask, mask, mixmask),
+    ensures rle16_run(s, width, pos as int, RleState { img, fg: mix, last_bg: opcode == 0 }) == rle16_run(s, width, p0, st0),
+        !rle16_zero_run(s, pos as int), !insertmix, !bicolour, p0 < pos <= s.len(), st0.img.len() <= img.len(),
+{
+    reveal(rle16_order_inv); reveal(rle16_run); reveal(rle16_zero_run);
+    lemma_rle16_parse_next(s, p0);
+    assert(k == rle16_npix(o));
+    assert(pos == o.next) by { reveal(rle16_parse); }
+    assert(rle16_apply(s, width, st0, o) == RleState { img, fg: mix, last_bg: opcode == 0 });
+    lemma_rle16_write_len(s, width, o, mix, rle16_insert(st0, width, o), st0.img, k as nat);
+}
+pub proof fn lemma_rle16_write_len(s: Seq<u8>, width: nat, o: RleOrder, fg: u16, insert: bool, img: Seq<u16>, k: nat)
+    ensures rle16_write(s, width, o, fg, insert, img, k).len() == img.len() + k
+    decreases k
+{
+    if k > 0 { lemma_rle16_write_len(s, width, o, fg, insert, img, (k - 1) as nat); }
+}
+pub proof fn lemma_rle16_run_end(s: Seq<u8>, width: nat, i: int, st: RleState)
+    requires i >= s.len()
+    ensures rle16_run(s, width, i, st) == Some(st.img)
+{
+    reveal(rle16_run);
+}
+pub proof fn lemma_rle16_decode_start(s: Seq<u8>, width: nat)
+    ensures rle16_decode(s, width) == rle16_run(s, width, 0, RleState { img: Seq::empty(), fg: 0xffff, last_bg: false })
+{
+    reveal(rle16_decode);
+}
 """, mod="rle", name="rle16_specs")
 
 ZR = "rle16_zero_run(input@, 0)"
 DEC = "rle16_decode(input@, width as nat)"
 _OK = "r is Ok && !" + ZR + " ==> "
+_IDX = "rle16_idx(width as int, height as int, rr, c)"
 
 RLE16_CONTRACT = dict(
     requires=["width * height <= old(output)@.len()"],
     ensures=[("C08", "len", "final(output)@.len() == old(output)@.len()"),
              # --- functional correctness against RLE16_SPECS (decode order: pixel (rr, c) = column c of the rr-th decoded scanline = row height-1-rr of the bitmap).
-             # Domain: streams without a zero-length MEGA_MEGA order (rle16_zero_run), see the findings in the unit notes.
+             # Domain: streams without a zero-length MEGA_MEGA order (rle16_zero_run), see the findings in the report.
              ("C09", "rle16-conformant", _OK + DEC + " is Some"),
              ("C09", "rle16-size", _OK + DEC + "->Some_0.len() <= width * height"),
              ("C09", "rle16-exact", _OK + "forall|rr: int, c: int| 0 <= rr && 0 <= c < width && rr * width + c < " + DEC + "->Some_0.len() ==> "
-              "0 <= #[trigger] rle16_idx(width as int, height as int, rr, c) < old(output)@.len() && final(output)@[rle16_idx(width as int, height as int, rr, c)] == " + DEC + "->Some_0[rr * width + c]"),
+              "0 <= #[trigger] " + _IDX + " < old(output)@.len() && final(output)@[" + _IDX + "] == " + DEC + "->Some_0[rr * width + c]"),
              ("C09", "rle16-frame-rows", _OK + "forall|rr: int, c: int| 0 <= rr < height && 0 <= c < width && rr * width + c >= " + DEC + "->Some_0.len() ==> "
-              "0 <= #[trigger] rle16_idx(width as int, height as int, rr, c) < old(output)@.len() && final(output)@[rle16_idx(width as int, height as int, rr, c)] == old(output)@[rle16_idx(width as int, height as int, rr, c)]"),
+              "0 <= #[trigger] " + _IDX + " < old(output)@.len() && final(output)@[" + _IDX + "] == old(output)@[" + _IDX + "]"),
              ("C09", "rle16-frame-tail", _OK + "forall|i: int| width * height <= i < old(output)@.len() ==> #[trigger] final(output)@[i] == old(output)@[i]"),
              ],
 )
@@ -483,6 +628,18 @@ N_LOOPS = 2 + 2 * N_SITES
 _E_SITES = {0, 2, 4}
 _NONE_SITES = {1, 3, 5}
 _SITE_KIND = ["BgRun", "BgRun", "FgRun", "FgRun", "FgBgImage", "FgBgImage", "ColorRun", "ColorImage", "DitheredRun", "White", "Black"]
+# the value stored by the pixel statement of each site, over the state BEFORE the statement (ocur = output@ before, g_* = variables before)
+_ABOVE_E = "ocur[e + g_x]"
+_SITE_VALUE = [
+    _ABOVE_E, "0u16",
+    "(" + _ABOVE_E + " ^ mix)", "mix",
+    "(if (mask & mixmask) != 0 { " + _ABOVE_E + " ^ mix } else { " + _ABOVE_E + " })", "(if (mask & mixmask) != 0 { mix } else { 0u16 })",
+    "colour2",
+    "u16_le(input@[g_pos as int], input@[g_pos as int + 1])",
+    "(if g_bic { colour2 } else { colour1 })",
+    "0xffffu16", "0u16",
+]
+_INSERT_VALUE = "(if prevline is Some { ocur[prevline->Some_0 + g_x] ^ mix } else { mix })"
 
 # all row bookkeeping is kept in LINEAR form: a row start `l` is usable iff l + width <= len
 # MAXLEN: a [u16] spans at most isize::MAX bytes (see PRE), so that `x + 8` with x <= width <= len cannot overflow
@@ -495,17 +652,16 @@ _COMMON = """
         input_cursor.pos() > p0,
 """
 
-# ---- functional layer (every clause is guarded by `dz ||`: nothing is claimed for streams with a zero-length MEGA_MEGA order)
-# current row: `line` None = nothing decoded yet; Some(l) = row_inv (opaque bundle) + the completed rows (snapshot taken when the row was started)
+# ---- functional layer.  Every clause is guarded by `dz ||` (dz = the stream has a zero-length MEGA_MEGA order: nothing is claimed then).
+# All specification functions are OPAQUE in the body (nothing unfolds in the 24 loop queries); the proof steps are lemma calls.
+# current row: `line` None = nothing decoded yet; Some(l) = rle16_row_inv + the completed rows (snapshot orow / imgrow taken when the row was started)
 _F_CURSOR = """
         input_cursor.data() == input@,
-        input_cursor.pos() <= input@.len(),
+"""
+_SNAP_INV = "ocur == output@, g_x == x, g_count == count, g_bic == bicolour, g_pos == input_cursor.pos(), g_ins == insertmix, g_mask == mask, g_mm == mixmask,"
+_F_ROWS = """
         o0 == old(output)@,
         top == width * h0,
-        dz == rle16_zero_run(input@, 0),
-        dec == rle16_decode(input@, width as nat),
-"""
-_F_ROWS = """
         dz || (line is None ==> output@ == o0 && img.len() == 0 && height == h0 && x == width),
         dz || (line is Some ==> line->Some_0 == height * width && height < h0 && base == (h0 - height - 1) * width
             && rle16_row_inv(output@, o0, orow, img, imgrow, width as int, top, line->Some_0 as int, x as int, base, prevline)
@@ -527,8 +683,9 @@ _OUTER = """
         insertmix ==> width > 0,
         width == 0 ==> line is None,
 """ + _F_CURSOR + _F_ROWS + """
+        dz || input_cursor.pos() <= input@.len(),
         dz || (rle16_run(input@, width as nat, input_cursor.pos() as int, RleState { img, fg: mix, last_bg: lastopcode == 0 }) == dec
-            && !rle16_zero_run(input@, input_cursor.pos() as int) && !insertmix && !bicolour && (line is Some ==> x >= 1)),
+            && !rle16_zero_run(input@, input_cursor.pos() as int) && !insertmix && !bicolour && (line is Some && width > 0 ==> x >= 1)),
     decreases
         (if input_cursor.pos() <= input@.len() { input@.len() - input_cursor.pos() } else { 0 }),
 """
@@ -544,13 +701,13 @@ _COUNT = """
         insertmix ==> width > 0,
         (width == 0 && line is Some) ==> count > 0,
 """ + _F_CURSOR + _F_ROWS + """
-        ocur == output@, g_count == count, g_bic == bicolour, g_pos == input_cursor.pos(), g_ins == insertmix, g_mask == mask, g_mm == mixmask,
-        dz || (po is Some ==> opcode == rle16_opcode(po->Some_0.kind)),
-        dz || (p0 < input@.len() && po == rle16_parse(input@, p0 as int) && st0.img.len() <= img.len()
+        """ + _SNAP_INV + """
+        dz || (p0 < input@.len() && po == rle16_parse(input@, p0 as int)
             && rle16_run(input@, width as nat, p0 as int, st0) == dec && !rle16_zero_run(input@, p0 as int)
-            && (line is Some ==> x >= 1)),
+            && (line is Some && width > 0 ==> x >= 1)),
         dz || (po is None ==> count > 0 && (opcode == 5 || opcode == 0xb || opcode == 0xc || opcode == 0xf)),
-        dz || (po is Some ==> """ + _ORDER_INV + """),
+        dz || (po is Some ==> opcode == rle16_opcode(po->Some_0.kind) && insertmix == (rle16_insert(st0, width as nat, po->Some_0) && k == 0)
+            && """ + _ORDER_INV + """),
     decreases
         height, (if x < width { 1int } else { 0int }), count,
 """
@@ -565,18 +722,18 @@ def _repeat_inv(site):
         width == 0 ==> count > 0,
 """
     if with_e:
-        s += "        e + width <= output@.len(),\n"
+        s += "        e + width <= output@.len(),\n        dz || e == line->Some_0 + width,\n"
     prev = ""
     if with_e:
-        prev = " && prevline == Some(e)"
+        s += "        prevline == Some(e),\n"
     elif site in _NONE_SITES:
-        prev = " && prevline is None"
+        s += "        prevline is None,\n"
     s += _F_CURSOR + """
-        ocur == output@, g_count == count, g_bic == bicolour, g_pos == input_cursor.pos(), g_ins == insertmix, g_mask == mask, g_mm == mixmask,
+        """ + _SNAP_INV + """
         x >= 1 || count > 0,
-        !insertmix,
+        dz || !insertmix,
         dz || (po is Some && po->Some_0.kind is """ + _SITE_KIND[site] + prev + """ && """ + _ORDER_INV + """
-            && line is Some && rle16_row_inv(output@, o0, orow, img, imgrow, width as int, top, line->Some_0 as int, x as int, base, prevline)),
+            && rle16_row_inv(output@, o0, orow, img, imgrow, width as int, top, line->Some_0 as int, x as int, base, prevline)),
     decreases
         width - x,
 """
@@ -590,36 +747,40 @@ for _s in range(N_SITES):
 
 _UNROLLED = r"while \(\(count & !0x7\) != 0\) && \(x \+ 8\) < width \{"
 
-# ghost step after every executed pixel statement (`x += 1;` closes each of them: 88 unrolled + 11 remainder + the insert-fg-pel pixel)
-_SNAP = "g_count = count; g_bic = bicolour; g_pos = input_cursor.pos(); g_ins = insertmix; g_mask = mask; g_mm = mixmask; ocur = output@;"
-_PIXEL = """proof {
-    if !dz {
-        let o = po->Some_0; let l = line->Some_0 as int; let v = output@[l + x - 1];
-        lemma_rle16_row_facts(ocur, o0, orow, img, imgrow, width as int, top, l, x - 1, base, prevline);
-        assert(0u16 ^ mix == mix) by(bit_vector);
-        lemma_rle16_step(input@, width as nat, st0, o, k, opcode, img, mix, colour1, colour2, fom_mask,
-            g_count, g_bic, g_pos, g_ins, g_mask, g_mm, count, bicolour, input_cursor.pos(), insertmix, mask, mixmask, v);
-        lemma_rle16_put(ocur, output@, o0, orow, img, imgrow, width as int, top, l, x - 1, base, prevline, v);
-        img = img.push(v); k = k + 1;
-    }
-    """ + _SNAP + """
-}"""
-_ORDER_START = """let ghost st0 = RleState { img, fg: mix, last_bg: lastopcode == 0 };
-let ghost po = rle16_parse(input@, p0 as int);"""
+# ghost step after every executed pixel statement (`x += 1;` closes each of them: the insert-fg-pel pixel, then 8 unrolled + 1 remainder per site)
+_SNAP = "g_x = x as int; g_count = count; g_bic = bicolour; g_pos = input_cursor.pos(); g_ins = insertmix; g_mask = mask; g_mm = mixmask; ocur = output@;"
 
+
+def _pixel(value, kind):
+    return """proof {
+    let v = """ + value + """;
+    lemma_rle16_pixel(dz, input@, width as nat, st0, po, RleKind::""" + kind + """, k, opcode, img, mix, colour1, colour2, fom_mask,
+        g_count, g_bic, g_pos, g_ins, g_mask, g_mm, count, bicolour, input_cursor.pos(), insertmix, mask, mixmask,
+        ocur, output@, o0, orow, imgrow, top, line->Some_0 as int, g_x, base, prevline, v);
+    img = img.push(v); k = k + 1;
+    """ + _SNAP + """
+}"""
+
+
+_ORDER_START = """let ghost st0 = RleState { img, fg: mix, last_bg: lastopcode == 0 };
+let ghost po = rle16_parse(input@, p0 as int);
+let ghost c10 = colour1; let ghost c20 = colour2; let ghost mask0 = mask;"""
+
+# header / parameters decoded: the variables equal the model rle16_code_decode, the lemma relates the model to the specification's order table
 _DECODED = """proof {
-    lemma_rle16_bits(code);
     if !dz {
-        assert(input@[p0 as int] == code);
-        lemma_rle16_parse_next(input@, p0 as int);
-        if 0xF0 <= code <= 0xF8 { lemma_rle16_le_zero(input@[p0 as int + 1], input@[p0 as int + 2]); }
+        if line is Some { lemma_rle16_row_facts(output@, o0, orow, img, imgrow, width as int, top, line->Some_0 as int, x as int, base, prevline); }
+        assert(rle16_code_decode(input@, p0 as int, st0.fg, c10, c20, mask0)
+            == Some(RleDec { opcode, count, pos: input_cursor.pos() as int, mix, colour1, colour2, fom_mask, mask }));
+        lemma_rle16_decode(input@, width as nat, st0, p0 as int, c10, c20, mask0, insertmix);
         k = 0;
-        assert(po is None ==> count > 0 && (opcode == 5 || opcode == 0xb || opcode == 0xc || opcode == 0xf));
-        reveal(rle16_order_inv);
-        assert(po is Some ==> """ + _ORDER_INV + """);
     }
     """ + _SNAP + """
 }"""
+# C09 claim: the insert-fg-pel flag is set exactly when the specification's rule applies
+_CLAIM_INSERT = "proof { assert(dz || (po is Some ==> insertmix == rle16_insert(st0, width as nat, po->Some_0))); }"
+_CLAIM_HEADER = ("proof { assert(dz || (po is Some ==> opcode == rle16_opcode(po->Some_0.kind) && count == po->Some_0.len "
+                 "&& input_cursor.pos() == po->Some_0.data)) by { reveal(rle16_order_inv); } }")
 
 _ROW = """proof {
     if !dz {
@@ -632,6 +793,7 @@ _ROW = """proof {
                 assert(img =~= Seq::<u16>::empty());
                 lemma_rle16_first_row(o0, width as int, top, ln);
                 base = 0;
+                assert((h0 - height - 1) * width == 0) by(nonlinear_arith) requires h0 - height - 1 == 0;
             },
             Some(lo) => {
                 lemma_rle16_next_row(output@, o0, orow, img, imgrow, width as int, top, lo as int, base, pl_old, (h0 - height - 2) as nat);
@@ -644,19 +806,22 @@ _ROW = """proof {
 
 _ORDER_END = """proof {
     if !dz {
-        let o = po->Some_0;
-        reveal(rle16_order_inv);
-        assert(k == rle16_npix(o));
-        assert(input_cursor.pos() == o.next);
-        assert(rle16_apply(input@, width as nat, st0, o) == RleState { img, fg: mix, last_bg: lastopcode == 0 });
+        lemma_rle16_order_end(input@, width as nat, st0, po->Some_0, p0 as int, k, opcode, count, bicolour, input_cursor.pos(), img, mix, insertmix,
+            colour1, colour2, fom_mask, mask, mixmask);
     }
 }"""
 
 _POST = """proof {
     if !dz {
+        lemma_rle16_run_end(input@, width as nat, input_cursor.pos() as int, RleState { img, fg: mix, last_bg: lastopcode == 0 });
         assert(dec == Some(img));
         match line {
-            None => { assert(img =~= Seq::<u16>::empty()); },
+            None => {
+                assert(img =~= Seq::<u16>::empty());
+                assert forall|rr: int, c: int| 0 <= rr < h0 && 0 <= c < width implies 0 <= #[trigger] rle16_idx(width as int, h0 as int, rr, c) < output@.len() by {
+                    lemma_rle16_idx_bound(width as int, h0 as int, rr, c);
+                }
+            },
             Some(l) => {
                 lemma_rle16_final(output@, o0, orow, img, imgrow, width as int, h0 as int, height as int, x as int, prevline);
             },
@@ -670,13 +835,14 @@ HINTS = [
     (r"opcode = code >> 4;", 1,
      "proof { assert(code & 0xfu8 <= 15) by(bit_vector); assert(code & 0x1fu8 <= 31) by(bit_vector); "
      "assert(code >> 4u8 <= 15) by(bit_vector); }", "after"),
-    (r"count <<= 3;", 1, "proof { assert(count <= 31 ==> (count << 3u32) <= 0xffff) by(bit_vector); "
-                         "assert(count <= 31 ==> (count << 3u32) == count * 8) by(bit_vector); }", "before"),
+    (r"count <<= 3;", 1, "proof { assert(count <= 31 ==> (count << 3u32) <= 0xffff) by(bit_vector); }", "before"),
     (r"line = Some\(height \* width\);", 1,
      "proof { assert(height * width + width <= width * h0) by(nonlinear_arith) requires height < h0; }", "before"),
     (r"mixmask = 0;", 1, _DECODED, "after"),
     (r"prevline = line;", 1, "let ghost pl_old = prevline;", "before"),
     (r"line = Some\(height \* width\);", 1, _ROW, "after"),
+    (r"match opcode \{", 3, "proof { g_x = x as int; if !dz && line is Some { lemma_rle16_row_facts(output@, o0, orow, img, imgrow, width as int, top, line->Some_0 as int, x as int, base, prevline); } }", "before"),
+    (r'"Unknown opcode"\)\)\)\s*\}', 1, "proof { assert(dz || (po is Some ==> insertmix == (rle16_insert(st0, width as nat, po->Some_0) && k == 0))) by { reveal(rle16_order_inv); } }", "after"),
     (r'"Unknown opcode"\)\)\)\s*\}\s*\}', 1, _ORDER_END, "after"),
     (r"\n\tOk\(\(\)\)", 1, _POST, "before"),
 ]
@@ -687,9 +853,16 @@ for _s in range(N_SITES):
 # block statements (op 2 masks, op 8 bicolour) inside the unrolled loops: restate the frame after every step
 _STEP = r"\}; count -= 1; x \+= 1;"
 for _i in range(24):
-    HINTS.append((_STEP, _i + 1, "proof { assert(output@.len() == old(output)@.len() && input_cursor.pos() > p0); }", "after"))
-for _i in range(8 * N_SITES + N_SITES + 1):
-    HINTS.append((r"x \+= 1;", _i + 1, _PIXEL, "after"))
+    HINTS.append((_STEP, _i + 1, "proof { assert(output@.len() == old(output)@.len() && input_cursor.pos() > p0 && input_cursor.data() == input@); }", "after"))
+HINTS.append((r"x \+= 1;", 1, _pixel(_INSERT_VALUE, "BgRun"), "after"))
+for _s in range(N_SITES):
+    for _j in range(9):
+        HINTS.append((r"x \+= 1;", 2 + 9 * _s + _j, _pixel(_SITE_VALUE[_s], _SITE_KIND[_s]), "after"))
+
+CLAIMS = [
+    (r"mixmask = 0;", 1, _CLAIM_INSERT, "after", "C09", "insert-fg-pel-guard"),
+    (r"mixmask = 0;", 1, _CLAIM_HEADER, "after", "C09", "order-header-length-decoding"),
+]
 
 # A [u16] never spans more than isize::MAX bytes (Rust layout rule).  vstd states this as the ensures of the
 # erased, empty-bodied exec function `layout_for_val_is_valid` (its argument is Tracked, i.e. ghost): calling it is
@@ -712,11 +885,12 @@ let ghost mut orow: Seq<u16> = output@;
 let ghost mut imgrow: Seq<u16> = Seq::empty();
 let ghost mut base: int = 0;
 let ghost mut ocur: Seq<u16> = output@;
-let ghost mut k: int = 0;
+let ghost mut k: int = 0; let ghost mut g_x: int = 0;
 let ghost mut g_count: u32 = 0; let ghost mut g_bic: bool = false; let ghost mut g_pos: nat = 0; let ghost mut g_ins: bool = false;
 let ghost mut g_mask: u8 = 0; let ghost mut g_mm: u8 = 0;
+proof { lemma_rle16_decode_start(input@, width as nat); }
 """
 
 RLE16 = Fn(RLE, "rle_16_decompress", mod="rle", props=["C08", "C09"], expand=["repeat"],
            pre=PRE,
-           loops=LOOPS, nloops=N_LOOPS, hints=HINTS, **RLE16_CONTRACT)
+           loops=LOOPS, nloops=N_LOOPS, hints=HINTS, claims=CLAIMS, **RLE16_CONTRACT)
